@@ -31,7 +31,7 @@ RULE = ('fixed corpus (traps: names with keyword prefixes, a name used as variab
         'continuation lines inside parentheses, comments, blank lines; rarely a blank before the index bracket = finding #20); '
         'scripts of the parser_common generator and their mutations.  Every accepted case: graph of the real Symbol list vs the '
         'extracted model; symbols_to_graph called again on the same list and on an equal copy after the caller edited the graph it was given '
-        '(the answers must equal the first); every equation executed in isolation on 3 random data vectors with recording arrays, and once more per '
+        '(the answers must equal the first); every equation executed in isolation on 4 random data vectors with recording arrays (every read cell must have an edge, every written cell must be a left-hand term), and again per '
         '(series, offset) of the model with that cell perturbed.  Non-trivial = accepted, at least one equation with a variable-like '
         'in-edge; distinct by hash of the case.')
 TRUSTED = ['extraction of Graph.symbols_to_graph_M / Graph.nx_edges / GTokenise.tokenise to OCaml (ExtrOcamlBasic + ExtrOcamlString only) and coq/Extract/Graph/driver.ml',
@@ -53,7 +53,9 @@ ASSUMPTIONS = ['input strings are Latin-1',
                'blanks and continuation lines); and for the renderings of all Eval statements (C20_rendered_statements_wf)',
                'the link to the evaluation semantics (Eval.eval_expr) is proved for statements rendered by GNorm.rstmt (fully parenthesised)',
                'conditional expressions read only the selected branch: "every in-edge is read" is proved / observed for conditional-free '
-               'equations, and observed on at least one of three data vectors otherwise']
+               'equations, and observed on at least one of four data vectors otherwise',
+               'for scripts outside the generator (corpus, parser_common scripts, mutations) edges-exact is checked for the statements of a small '
+               'sub-grammar read independently by the oracle (_subset_reference); a left-hand side with a named period (Y[\'2000\'] = X) is not evaluated']
 EXHAUSTIVE = {'quick': False, 'thorough': False}
 CASE_TIMEOUT = 60
 SOURCES = ['tools.py', 'parser.py']
@@ -375,6 +377,7 @@ CORPUS = [
     'Y = X\nZ = Y[-1]\nW = Z + Y', 'Y = X\n```\nfoo = 1\n```\nZ = W', '`x = 1`', '', 'Y = a < b > c', 'Y = 1 if{a}else 2', 'Y = X==Z',
     'Y = X\nY = X', 'Y = f(X) + g.h(Z)', '```\npass\n```\nY = X', 'Y = X\n`k = 1`', '```\nx = Y[t] + 1\nz = 2\n```\nY = X + Z', '`pass`', '```\npass\n```', 'Z==()', 'Y[=1]', 'Y = (X +\n  Z)', '(Y =\n X)', 'Y = X[ -1 ]+X[+1]',
     'S,D = X, Y[-1]', 'S,D = X, Y[-1]\nQ = S + D[-1]', 'A,B[1],C = X, Y, Z[1] + A[-1]', 'S,D = D[-1], S[-1]',     # tuple targets: every target is a node with all edges
+    'Y = X; Z = Y', "Y = X if S == 'W' else Z", 'Y = X if Z > 10 else W[-1]', 'Y = max(X, 3) + (W if Z < 1.5 else C[-2])',
     'b = {as} * X\nY = <if> + b[-1]',     # terms named like reserved words (C14|fixed-point|reserved-word-name): the graph is still exact
 ]
 
@@ -498,7 +501,17 @@ def _isolated(symbols, seed):
         # large steps only where a term can be masked by max / min / abs / a comparison / a conditional
         rough = re.search(r'max|min|abs|if|<|>|==|!=|\band\b|\bor\b|\bnot\b|sign|where|clip', s.code) is not None
         deltas = DELTAS if rough else DELTAS[:1]
-        entry = {'lhs': lhs, 'reads': [], 'infl': [], 'labels': [repr(lb) for lb in labels], 'tuple': ',' in lhs_all}
+        # values just above / below the numeric literals of the code, so that a comparison with such a literal can flip
+        lits = []
+        for w in re.findall(r'(?<![\w.])(\d+\.?\d*|\.\d+)(?![\w.])', re.sub(r'\[[^\]]*\]', '', s.code)):
+            try:
+                v = float(w)
+            except ValueError:
+                continue
+            if v not in lits and len(lits) < 4:
+                lits.append(v)
+        entry = {'lhs': lhs, 'reads': [], 'writes': [], 'infl': [], 'labels': [repr(lb) for lb in labels], 'tuple': ',' in lhs_all,
+                 'targets': [m.group(0) for m in TERM_ID.finditer(lhs_all)], 'eq': s.equation}
         try:
             base = []
             for d in datas:
@@ -512,13 +525,19 @@ def _isolated(symbols, seed):
                 # offsets relative to t; a named period is reported as ['NAME', 'L', j] (j-th label)
                 entry['reads'].append(sorted({(r[1], r[2] - t) if r[2] < n0 else (r[1], 'L%d' % (r[2] - n0))
                                               for r in log if r[0] == 'R' and isinstance(r[2], int)}, key=repr))
+                for r in log:
+                    if r[0] == 'W' and isinstance(r[2], int) and r[2] < n0 and [r[1], r[2] - t] not in entry['writes']:
+                        entry['writes'].append([r[1], r[2] - t])
             cells = [(nm, t + k, k) for nm in names for k in range(-lags, leads + 1)] + [(nm, n0 + j, 'L%d' % j) for nm in names for j in range(len(labels))]
             for nm, pos, key in cells:
                 hit = False
                 for d, b in zip(datas, base):
-                    for dl in deltas:
+                    for kind, dl in [('add', x) for x in deltas] + ([('set', c + sg) for c in lits for sg in (0.5, -0.5)] if rough else []):
                         m = load(d)
-                        m.__dict__['_' + nm][pos] += dl
+                        if kind == 'add':
+                            m.__dict__['_' + nm][pos] += dl
+                        else:
+                            m.__dict__['_' + nm][pos] = dl
                         run(m, s.code)
                         v = float(np.asarray(m.__dict__['_' + y])[t + ky])
                         if not (v == b or (v != v and b != b)):
@@ -688,6 +707,64 @@ def _cell_node(nm, key, labels, nodes):
     return '%s[%s]' % (nm, labels[j] if j < len(labels) else '?')
 
 
+_KW = None
+
+
+def _subset_reference(script):
+    """an independent reading of the statements of `script` that lie in a small sub-grammar (single line NAME[k] = rhs; rhs made of
+    names, NAME[+-k], {NAME}, numbers, + - * / ** ( ) , and calls of plain or np.-dotted functions; no keyword, quote, backtick, '<', '>',
+    ';', blank before '['): {lhs id: set of dependencies}, only for left-hand sides ALL of whose statements are in the sub-grammar"""
+    global _KW
+    import keyword
+    if _KW is None:
+        _KW = set(keyword.kwlist)
+    ref, spoiled = {}, set()
+    for line in script.split('\n'):
+        body = line.split('#', 1)[0].rstrip()
+        if not body.strip():
+            continue
+        m = re.fullmatch(r'([A-Za-z_]\w*)(?:\[([+-]?\d+)\])?\s*=(?!=)\s*([A-Za-z0-9_ \t\[\]+\-*/(),.{}]+)', body)
+        lhs_name = re.match(r'\s*\(?\s*([A-Za-z_]\w*)', body)
+        if not m:
+            if lhs_name:
+                spoiled.add(lhs_name.group(1))
+            else:
+                return {}
+            continue
+        y, ky, rhs = m.group(1), int(m.group(2) or 0), m.group(3)
+        ok = (not re.search(r'\s\[|\[\s*[+-]\s|[A-Za-z_]\s*\.\s|\.\s*[A-Za-z_]|\d[A-Za-z_]|\{\{|\}\}|\[[^\]]*[^\d+\-\s][^\]]*\]', rhs.replace('np.', 'np_'))
+              and rhs.count('(') == rhs.count(')') and rhs.count('{') == rhs.count('}') and y not in _KW)
+        deps = set()
+        if ok:
+            for t in re.finditer(r'(\{\s*)?(?<![\w.])([A-Za-z_][\w.]*)(\s*\})?(\s*\()?(?:\[\s*([+-]?\d+)\s*\])?', rhs):
+                name = t.group(2)
+                if name.split('.')[0] in _KW or (bool(t.group(1)) != bool(t.group(3))):
+                    ok = False
+                    break
+                if t.group(4):
+                    if t.group(1) or t.group(5):
+                        ok = False
+                        break
+                    continue                      # a function name
+                if '.' in name:
+                    ok = False
+                    break
+                deps.add(term_id(name, int(t.group(5) or 0)))
+        if not ok:
+            spoiled.add(y)
+            continue
+        ref.setdefault(term_id(y, ky), set()).update(deps)
+    return {k: v for k, v in ref.items() if k.split('[')[0] not in spoiled}
+
+
+def _in_string_literal(script, name):
+    """does `name` occur inside a quoted string of the script that is no index label (not directly after '[')?"""
+    for m in re.finditer(r'(?<!\[)(?<!\[ )(\'[^\'\n]*\'|"[^"\n]*")', script):
+        if re.search(r'(?<![\w.])' + re.escape(name) + r'(?![\w])', m.group(1)):
+            return True
+    return False
+
+
 def oracle(case, obs):
     fails = []
     flags = set(case.get('flags', []))
@@ -755,6 +832,13 @@ def oracle(case, obs):
             got = sorted(a for a, b in edges if b == r['lhs'] and varlike(a))
             if got != sorted(r['deps']):
                 add('edges-exact', 'variable-like edges into %s are %s, terms written on its right-hand side %s' % (r['lhs'], got, sorted(r['deps'])))
+    # scripts outside the generator: the statements that lie in a small sub-grammar are read independently
+    if case['k'] == 's':
+        for lhs, deps in _subset_reference(case['s']).items():
+            if lhs in nodes and nodes[lhs] is not None:
+                got = sorted(a for a, b in edges if b == lhs and varlike(a))
+                if got != sorted(deps):
+                    add('edges-exact', 'variable-like edges into %s are %s, terms written on its right-hand side %s' % (lhs, got, sorted(deps)))
     # data flow
     if 'iso_exc' in obs:
         if case['k'] == 'prog' and not flags:
@@ -771,6 +855,23 @@ def oracle(case, obs):
             continue
         into = {a for a, b in edges if b == lhs}
         labels = ent.get('labels', [])
+        # every cell of a series that the code READS has an edge (the converse of edge-not-read; soundness without perturbation)
+        for r in ent['reads']:
+            for nm, k in r:
+                node = _cell_node(nm, k, labels, into)
+                if node not in into:
+                    add('read-without-edge', 'executing the equation of %s reads %s but there is no edge' % (lhs, node))
+        # every cell the code WRITES is a left-hand term of the equation ("one node per left-hand term")
+        semicolon = False
+        for nm, k in ent.get('writes', []):
+            if term_id(nm, k) not in ent.get('targets', [lhs]):
+                semicolon = semicolon or ';' in re.sub(r'\'[^\'\n]*\'|"[^"\n]*"|`[^`\n]*`', '', case['s'])
+                if ';' in re.sub(r'\'[^\'\n]*\'|"[^"\n]*"|`[^`\n]*`', '', case['s']):
+                    fails.append({'sig': 'C20|assignment-without-lhs-node|semicolon',
+                                  'what': 'the code of %s also assigns %s, which is no left-hand term of the equation %r (a second statement after ";") — script %s'
+                                          % (lhs, term_id(nm, k), ent.get('eq'), json.dumps(case['s'])[:160])})
+                else:
+                    add('assignment-without-lhs-node', 'the code of %s also assigns %s, which is no left-hand term of its equation' % (lhs, term_id(nm, k)))
         for nm, k in ent['infl']:
             node = _cell_node(nm, k, labels, into)
             if node not in into:
@@ -781,14 +882,21 @@ def oracle(case, obs):
             if key is None:
                 continue
             seen = [key in r for r in runs]
-            is_cond = cond.get(lhs, True)
-            if case['k'] != 'prog':
-                is_cond = True
+            if case['k'] == 'prog':
+                is_cond = cond.get(lhs, True)
+            else:
+                # outside the generator: a conditional expression, and / or short-circuit, a verbatim fragment need not read every term
+                is_cond = re.search(r'\b(?:if|else|and|or|not|lambda|for|in|is)\b|`', ent.get('eq') or 'if') is not None
             if (not any(seen)) if is_cond else (not all(seen)):
-                if is_cond and case['k'] == 'prog' and cond.get(lhs):
-                    continue        # a branch none of the three data vectors selects: nothing is claimed
-                if case['k'] != 'prog':
-                    continue        # scripts outside the generated grammar: keywords such as and/or short-circuit as well
+                if is_cond and _in_string_literal(case['s'], key[0]) and not any(seen):
+                    fails.append({'sig': 'C20|edge-not-read|term-inside-string-literal',
+                                  'what': 'edge %s -> %s, but %s stands inside a string literal of the script: the code compares with / uses the '
+                                          'rewritten text, the cell is never read — script %s' % (a, lhs, key[0], json.dumps(case['s'])[:160])})
+                    continue
+                if is_cond:
+                    continue        # a branch none of the data vectors selects: nothing is claimed
+                if semicolon:
+                    continue        # the term is ASSIGNED by a second statement after ";": reported above as assignment-without-lhs-node|semicolon
                 add('edge-not-read', 'edge %s -> %s but the cell is not read when the equation is executed' % (a, lhs))
     return fails
 
